@@ -31,6 +31,7 @@ import (
 	"fmt"
 	"strings"
 
+	"github.com/zeromicro/go-zero/internal/verifkit"
 	rapid "github.com/zeromicro/go-zero/internal/verifrapid"
 )
 
@@ -82,9 +83,9 @@ type gen struct {
 	comments []comment
 	ncmt     int
 	// features, for the non-trivial rule and histograms
-	groups, stmts, fields, routes, nested, multiDoc, degenerate int
-	lossy                                                       bool // the program holds a construct the formatter drops on purpose (empty group/import/@doc, "()", ';')
-	kinds                                                       map[string]int
+	groups, stmts, fields, routes, nested, multiDoc, degenerate, bulk int
+	lossy                                                             bool // the program holds a construct the formatter drops on purpose (empty group/import/@doc, "()", ';')
+	kinds                                                             map[string]int
 }
 
 func (g *gen) n(lo, hi int, label string) int { return rapid.IntRange(lo, hi).Draw(g.t, label) }
@@ -556,9 +557,24 @@ func (g *gen) program(maxStmts int) {
 			}
 		}
 	}
+	// scale: one program in eighty (unit `valid` only) holds one statement whose text is far larger than anything else in
+	// the case (6 KB - 100 KB: past whatever size a buffer, a pool or a scanner window may have been
+	// tuned for); the statements behind it and the programs of the next cases show what it left behind
+	if !g.focus && maxStmts >= 6 && (bulkAlways || g.chance(2, "bulk") && g.chance(bulkPct, "bulk2")) {
+		at := 0
+		for at < len(kinds) && kinds[at] <= 3 {
+			at++
+		}
+		if at < len(kinds) {
+			at += g.n(0, len(kinds)-at, "bulkAt")
+		}
+		kinds = append(kinds[:at], append([]int{7}, kinds[at:]...)...)
+	}
 	for _, k := range kinds {
 		g.stmts++
 		switch k {
+		case 7:
+			g.bulkTypeGroup()
 		case 0:
 			g.syntaxStmt()
 		case 1:
@@ -743,6 +759,73 @@ func (g *gen) typeGroup() {
 		return
 	}
 	body()
+}
+
+// bulk statements are drawn with probability 1/64 * bulkPct/100 (VERIF_C20_BULKPCT, quick 25, thorough 100)
+var (
+	bulkAlways = verifkit.EnvInt("c20_bulk_always", 0) == 1
+	bulkPct    = verifkit.EnvInt("c20_bulkpct", 25)
+)
+
+// fixedTok appends a token behind a fixed separator, without any draw (bulk material).
+func (g *gen) fixedTok(sep, text string) {
+	g.raw(sep)
+	g.pieces = append(g.pieces, piece{text: text, isTok: true})
+	g.prev = text
+	g.trail = clsMay
+}
+
+// bulkTypeGroup: a type group of many small structs, written in an already canonical layout; only its
+// size and the shape of a member are drawn.
+func (g *gen) bulkTypeGroup() {
+	g.kind("typegroup-bulk")
+	g.groups++
+	g.bulk++
+	target := rapid.SampledFrom([]int{6 << 10, 20 << 10, 40 << 10, 70 << 10, 100 << 10}).Draw(g.t, "bulkBytes")
+	nf := g.n(1, 6, "bulkFields")
+	tagged := rapid.Bool().Draw(g.t, "bulkTags")
+	types := []string{"int64", "string", "[]string", "map[string]int", "*bool", "[]*Resp", "interface{}"}
+	perMember := 12 + nf*34
+	members := target/perMember + 1
+	g.area = "typegroup"
+	g.tok("type", gAny, clsMust)
+	g.tok("(", gAny, clsMay)
+	for i := 0; i < members; i++ {
+		g.fixedTok("\n\t", fmt.Sprintf("Bulk%dx%d", g.bulk, i))
+		g.fixedTok(" ", "{")
+		for j := 0; j < nf; j++ {
+			g.fixedTok("\n\t\t", fmt.Sprintf("Field%d", j))
+			ty := types[(i+j)%len(types)]
+			switch {
+			case strings.HasPrefix(ty, "map["):
+				g.fixedTok(" ", "map")
+				g.fixedTok("", "[")
+				g.fixedTok("", "string")
+				g.fixedTok("", "]")
+				g.fixedTok("", "int")
+			case strings.HasPrefix(ty, "[]*"):
+				g.fixedTok(" ", "[")
+				g.fixedTok("", "]")
+				g.fixedTok("", "*")
+				g.fixedTok("", ty[3:])
+			case strings.HasPrefix(ty, "[]"):
+				g.fixedTok(" ", "[")
+				g.fixedTok("", "]")
+				g.fixedTok("", ty[2:])
+			case strings.HasPrefix(ty, "*"):
+				g.fixedTok(" ", "*")
+				g.fixedTok("", ty[1:])
+			default:
+				g.fixedTok(" ", ty)
+			}
+			if tagged {
+				g.fixedTok(" ", fmt.Sprintf("`json:\"f%d,optional\"`", j))
+			}
+		}
+		g.fixedTok("\n\t", "}")
+	}
+	g.raw("\n")
+	g.tok(")", gAny, clsMay).tr(g.cap(clsMust))
 }
 
 // typeExpr: Name [=] DataType  (parseTypeExpr)
